@@ -624,7 +624,7 @@ impl CanonicalRequest {
 
         // Rule 7c: Use the first value for each key.
         if let Some(credential) = self.query_parameters.get(X_AMZ_CREDENTIAL) {
-            builder.credential(credential[0].clone());
+            builder.credential(unescape_query_value(&credential[0]));
         } else {
             missing_messages.push(MSG_QUERY_STRING_MUST_INCLUDE_CREDENTIAL);
         }
@@ -659,10 +659,10 @@ impl CanonicalRequest {
 
         // Get the session token if present.
         if let Some(token) = self.query_parameters.get(X_AMZ_SECURITY_TOKEN) {
-            builder.session_token(token[0].clone());
+            builder.session_token(unescape_query_value(&token[0]));
         }
 
-        let timestamp_str = timestamp_str.expect("date_str should be set")[0].clone();
+        let timestamp_str = unescape_query_value(&timestamp_str.expect("date_str should be set")[0]);
         Ok(AuthParams {
             builder,
             signed_headers,
@@ -1310,6 +1310,30 @@ pub const fn trim_ascii(bytes: &[u8]) -> &[u8] {
 pub const fn u8_to_upper_hex(b: u8) -> [u8; 2] {
     let result: [u8; 2] = [HEX_DIGITS_UPPER[((b >> 4) & 0xf) as usize], HEX_DIGITS_UPPER[(b & 0xf) as usize]];
     result
+}
+
+/// Decodes a normalized (percent-encoded) query parameter value into the text it denotes. The query parameters are
+/// stored in normalized form, so the credential (`AKID%2F20150830%2F...`), date and session token taken from the
+/// query string must be decoded before use. Bytes that do not form valid UTF-8 are replaced.
+fn unescape_query_value(s: &str) -> String {
+    let bytes = s.as_bytes();
+    let mut result = Vec::with_capacity(bytes.len());
+    let mut i = 0;
+
+    while i < bytes.len() {
+        if bytes[i] == b'%' && i + 2 < bytes.len() {
+            if let Ok(decoded) = hex::decode(&bytes[i + 1..i + 3]) {
+                result.push(decoded[0]);
+                i += 3;
+                continue;
+            }
+        }
+
+        result.push(bytes[i]);
+        i += 1;
+    }
+
+    String::from_utf8_lossy(&result).into_owned()
 }
 
 /// Unescapes a URI percent-encoded string.
